@@ -273,6 +273,28 @@ def amen_solve(A, b, nswp=22, x0=None, eps=1e-10, rmax=32768, max_full=500, kick
     if trunc_norm not in ('res', 'fro'):
         raise InvalidArguments("Invalid trunc_norm.")
 
+    # The solution is linear in b and inverse linear in A: the solvers work on operands whose cores have unit size (their norms
+    # square the data, which under- / overflows for very small / large magnitudes); the factors (powers of two) are put back at the end.
+    def _pow2(c):
+        m = float(tn.max(tn.abs(c))) if c.numel() > 0 else 0.0
+        return 2.0**np.floor(np.log2(m)) if (m > 0 and np.isfinite(m)) else 1.0
+    scale_A = [_pow2(c) for c in A.cores]
+    scale_b = [_pow2(c) for c in b.cores]
+    A = torchtt.TT([c / m for c, m in zip(A.cores, scale_A)])
+    b = torchtt.TT([c / m for c, m in zip(b.cores, scale_b)])
+    if x0 is not None:
+        # the initial guess in the scaled variables (or, if that is not representable safely, its direction only)
+        lim = float(tn.finfo(b.cores[0].dtype).max)**0.25
+        cores_x0 = []
+        for c0, ma, mb in zip(x0.cores, scale_A, scale_b):
+            f = ma / mb
+            c = c0 * f if (np.isfinite(f) and f > 0) else c0
+            m = float(tn.max(tn.abs(c))) if c.numel() > 0 else 0.0
+            if not np.isfinite(m) or (m > 0 and not (1 / lim < m < lim)):
+                c = c0 / _pow2(c0)
+            cores_x0.append(c)
+        x0 = torchtt.TT(cores_x0)
+
     # the compiled solver is written for real data: complex systems go to the Python implementation
     if use_cpp and _flag_use_cpp and not A.cores[0].is_complex():
         if x0 == None:
@@ -291,9 +313,10 @@ def amen_solve(A, b, nswp=22, x0=None, eps=1e-10, rmax=32768, max_full=500, kick
             raise InvalidArguments("Invalid preconditioner.")
         cores = torchttcpp.amen_solve(A.cores, b.cores, x_cores, b.N, A.R, b.R, x_R, nswp,
                                       eps, rmax, max_full, kickrank, kick2, local_iterations, resets, verbose, prec)
-        return torchtt.TT(list(cores))
+        solution = torchtt.TT(list(cores))
     else:
-        return _amen_solve_python(A, b, nswp, x0, eps, rmax, max_full, kickrank, kick2, trunc_norm, local_solver, local_iterations, resets, verbose, preconditioner, use_single_precision, band_diagonal)
+        solution = _amen_solve_python(A, b, nswp, x0, eps, rmax, max_full, kickrank, kick2, trunc_norm, local_solver, local_iterations, resets, verbose, preconditioner, use_single_precision, band_diagonal)
+    return torchtt.TT([c * (mb / ma) for c, ma, mb in zip(solution.cores, scale_A, scale_b)])
 
 
 def _amen_solve_python(A, b, nswp=22, x0=None, eps=1e-10, rmax=1024, max_full=500, kickrank=4, kick2=0, trunc_norm='res', local_solver=1, local_iterations=40, resets=2, verbose=False, preconditioner=None, use_single_precision=False, band_diagonal=-1):
